@@ -196,9 +196,10 @@ def run(ctx):
         per_system[sysd["name"]] = st
     # tie A validated by B on further systems: real generated archetypes driven through harness/steplib
     if not ctx.replay:
-        plan = [("dqueue", 0, 3, 40), ("pbkvs", 0, 2, 40), ("pbkvs", 1, 2, 40), ("raftkvs", 1, 2, 60)] if ctx.tier == "quick" else \
+        plan = [("dqueue", 0, 3, 40), ("pbkvs", 0, 2, 40), ("pbkvs", 1, 2, 40), ("raftkvs", 1, 2, 60),
+                ("proxy", 0, 2, 40), ("replicatedkv", 0, 2, 40)] if ctx.tier == "quick" else \
                [("dqueue", 0, 12, 60), ("pbkvs", 0, 8, 80), ("pbkvs", 1, 8, 80), ("raftkvs", 0, 8, 80), ("raftkvs", 1, 8, 100),
-                ("shcounter", 0, 6, 30), ("loadbalancer", 0, 8, 60)]
+                ("proxy", 0, 10, 80), ("replicatedkv", 0, 10, 80), ("shcounter", 0, 6, 30), ("loadbalancer", 0, 8, 60)]
         seeds_ = [ctx.rng.randrange(1 << 30) for _ in plan]
         import random as _random
         def real_one(job):
@@ -352,7 +353,9 @@ MANIFEST = {
     "technique": "translation validation: both models regenerated from the sources on every run (tools/go2coq, tools/tla2coq), "
                  "one Coq theorem per label (normal-form equality by vm_compute through a checker proved sound once); search oracle = "
                  "seed corpus of reachable states + one-step lookahead + differential walks of the two models; the regenerated Go model "
-                 "replayed against the real generated Go (locksvc, dqueue, pbkvs, raftkvs) and against a direct interpreter on every run",
+                 "replayed against the real generated Go (locksvc, dqueue, pbkvs, raftkvs, proxy, replicatedkv) and against a direct interpreter on every run; "
+                 "the regenerated TLA+ model compared with TLC's next-state relation on the shipped specs (successor sets of TLC's state graph / "
+                 "simulation traces + one-step expansions; quick: 3 small systems, thorough: 16 systems)",
     "text": ("For each of the 17 shipped spec/Go pairs whose TLA+ translation SANY accepts (11 systems/*, 6 *.gotests), coq/Gen/<sys>_equiv.v is "
              "regenerated on every run and holds, per label, `forall fuel r ks, run Dgo fuel (symex_go body) r ks = run Dtla fuel (symex_tla action) r ks` "
              "(all states, all selves, all CONSTANT interpretations, all either/with resolutions: same updated variables, next pc, prints, "
@@ -362,11 +365,16 @@ MANIFEST = {
              "each other (for locksvc also replayed on the real generated Go). The 3 remaining labels (gogen/bug_167) are a known finding with "
              "witnesses; no label is covered by differential execution only. One defect was repaired (stale TLA+ translation of proxy.tla)."),
     "level_note": ("Trusted: Coq kernel + vm_compute; SANY, stock pcal, go/parser; the two translators; coq/C02/Lang.v eval and Sem.v symex_go/symex_tla/subst "
-                   "(the semantics of each side is DEFINED as run o symex; dtree_sound_go/tla are NOT proved: the substitution lemma needs fuel "
-                   "monotonicity of eval; instead run o symex_go is compared on every run with the direct environment-passing interpreter of "
+                   "(the semantics of each side is DEFINED as run o symex; dtree_sound_go/tla are NOT proved: fuel monotonicity of eval and run is "
+                   "(eval_fuel_monotone, run_fuel_monotone), the substitution lemma for subst is not; instead run o symex_go is compared on every run with the direct environment-passing interpreter of "
                    "coq/C02/Direct.v on walk states (quick: 5 systems, thorough: all 17) and with the REAL generated Go attempt by attempt "
                    "(locksvc 480 exact-choice attempts, dqueue/pbkvs/raftkvs ~400 attempts through harness/steplib, for some choice vector within the "
-                   "observed ceilings); symex_tla has no second interpreter); the hand-written Bind_<sys>.v (mapping macros, instance bindings, renamed "
+                   "observed ceilings; proxy/replicatedkv likewise through own set-ups in harness/cmd/c02s); the TLA+ side (tla2coq + eval + symex_tla) is "
+                   "compared with TLC, the reference interpreter of TLA+: for sampled states of TLC's complete state graph (locksvc and dqueue with the "
+                   "shipped constants, loadbalancer, shcounter, gcounter, shopcart, nestedcrdtimpl, IndexingLocals) the model's successor set must EQUAL "
+                   "TLC's, and for pbkvs/raftkvs (shipped constants), proxy, replicatedkv, bug_167, bug2_124, PBFail4_bug125, NonDetExploration every "
+                   "step of TLC simulation traces must be a model step and the successor sets of sampled trace states must equal TLC's one-step "
+                   "expansion (thorough: ~1500 states, ~4000 TLC edges, ~3000 trace steps; quick: 209 states); hello is not compared); the hand-written Bind_<sys>.v (mapping macros, instance bindings, renamed "
                    "variables, scratch variables of old translations, checked never read unprimed); the state relation Go local = v[self], pc = pc[self]. "
                    "Not covered: ExprTests, bug_119, ProcedureSpaghetti (SANY rejects their TLA+ translation, so procedure calls have no modelled "
                    "semantics), EmptyBlock; archetypes a spec never instantiates; the Scala compiler itself (absent offline: the claim is about the "
